@@ -127,6 +127,11 @@ impl<M: Manager, O: Copy + Eq, const ENTRY_CAP: usize> Entry<M, O, ENTRY_CAP> {
     #[inline]
     fn lock(&self) -> EntryGuard<'_, M, O, ENTRY_CAP> {
         self.mutex.lock();
+        #[cfg(oxidd_verif)]
+        oxidd_core::verif::emit(
+            oxidd_core::verif::site::CACHE_BUCKET_LOCK,
+            &[self as *const Self as usize],
+        );
         EntryGuard(self)
     }
 
@@ -218,6 +223,28 @@ where
 
         let (edge_values, remaining) = data.as_slice().split_at(E);
         let numeric_values = &remaining[..N];
+        #[cfg(oxidd_verif)]
+        {
+            // The bucket is locked; the value edges are not cloned yet.
+            let mut event: std::vec::Vec<usize> =
+                std::vec::Vec::with_capacity(3 + 2 * (operands.0.len() + E));
+            event.extend([
+                self.0 as *const Entry<M, O, ENTRY_CAP> as usize,
+                operands.0.len(),
+                E,
+            ]);
+            for o in operands.0 {
+                event.push(o.node_id());
+                event.push(oxidd_core::Countable::as_usize(o.tag()));
+            }
+            for v in edge_values {
+                // SAFETY: The first `E` values in `data` are edges
+                let v = unsafe { v.assume_edge_ref() };
+                event.push(v.node_id());
+                event.push(oxidd_core::Countable::as_usize(v.tag()));
+            }
+            oxidd_core::verif::emit(oxidd_core::verif::site::CACHE_HIT, &event);
+        }
         Some((
             // SAFETY: The next `E` values in `data` are edges
             std::array::from_fn(|i| {
@@ -434,6 +461,22 @@ where
         oxidd_core::verif::emit(oxidd_core::verif::site::CACHE_ADD, &[]);
         if let Some(mut entry) = self.bucket(operator, operands).try_lock() {
             entry.set(operator, operands, values);
+            #[cfg(oxidd_verif)]
+            {
+                // The entry is written, the bucket is still locked.
+                let mut event: std::vec::Vec<usize> =
+                    std::vec::Vec::with_capacity(3 + 2 * (operands.0.len() + values.0.len()));
+                event.extend([
+                    entry.0 as *const Entry<M, O, ENTRY_CAP> as usize,
+                    operands.0.len(),
+                    values.0.len(),
+                ]);
+                for e in operands.0.iter().chain(values.0) {
+                    event.push(e.node_id());
+                    event.push(oxidd_core::Countable::as_usize(e.tag()));
+                }
+                oxidd_core::verif::emit(oxidd_core::verif::site::CACHE_ADD_DONE, &event);
+            }
         }
     }
 
@@ -451,6 +494,15 @@ where
     H: Hasher + Default,
 {
     fn pre_gc(&self, _manager: &M) {
+        #[cfg(oxidd_verif)]
+        oxidd_core::verif::emit(
+            oxidd_core::verif::site::CACHE_PRE_GC,
+            &[
+                self.0.as_ptr() as usize,
+                self.0.len(),
+                std::mem::size_of::<Entry<M, O, ENTRY_CAP>>(),
+            ],
+        );
         // FIXME: We should probably do something smarter than clearing the
         // entire cache.
         for entry in &*self.0 {
@@ -458,11 +510,21 @@ where
             entry.clear();
             // Don't unlock!
             std::mem::forget(entry);
+            // The bucket reported by the last `CACHE_BUCKET_LOCK` event of
+            // this thread is cleared and stays locked.
+            #[cfg(oxidd_verif)]
+            oxidd_core::verif::emit(oxidd_core::verif::site::CACHE_PRE_GC_BUCKET, &[]);
         }
     }
 
     unsafe fn post_gc(&self, _manager: &M) {
         for entry in &*self.0 {
+            // The bucket is still locked here.
+            #[cfg(oxidd_verif)]
+            oxidd_core::verif::emit(
+                oxidd_core::verif::site::CACHE_POST_GC_BUCKET,
+                &[entry as *const Entry<M, O, ENTRY_CAP> as usize],
+            );
             // SAFETY: `post_gc()` is called at most once after `pre_gc()` and
             // reordering. Hence, the mutex is locked. The cache is empty, so
             // we don't risk that a call to `get()` returns an invalid edge.
